@@ -7,7 +7,7 @@
 From Coq Require Import String List Bool Arith.
 From KV Require Import Lib.TableDef Model.TTable Model.CsShape Spec.TableInterp Gen.CsTmpl Model.CsSM
                        Proofs.TTableProofs Proofs.SmlProofs Proofs.CsProofs Model.DeclShape Gen.DeclTmpl Model.Decls Proofs.DeclProofs
-                       Lib.Str Model.Engine Model.EngineSM Model.EngineDomain Model.EngineDomain16 Spec.RefExpand16 Model.CsRender Proofs.CsBridge.
+                       Lib.Str Model.Engine Model.EngineSM Model.EngineDomain Model.EngineDomain16 Spec.RefExpand16 Model.Parse16 Model.CsRender Proofs.CsBridge.
 Import KV.Model.CsShape KV.Model.CsSM.
 Import ListNotations.
 Open Scope string_scope.
@@ -69,6 +69,20 @@ Theorem C10_handlers_engine : forall tt structs protos msgs m dict,
             let '(tr, c, n') := step_rows_quiet gv n s e (rows_for (table_of tt) s e) in (tr, mkCs c c n' true false)).
 Proof. exact cs_handlers_engine. Qed.
 Print Assumptions C10_handlers_engine.
+
+(* THE WHOLE FILE.  The shipped TEMPLATEInternals.cs as a whole lies in the template grammar of C16 (text, per-state / per-event blocks,
+   the transition block, the user-tag line #define SM_THREAD_<<<StateMachineThread=1>>>, the <<<TTT_BOOST_SML>>> line of the header
+   comment): for every table, every interface and every assignment of user tags admitted for it (cs_file_wf: computed), what
+   smgen.Generate's pipeline writes from the file is the reference expansion of the file; its 46th item is the transition block, whose
+   expansion is the class texts above.  The harness compares the real <Name>Internals.cs as a whole with that text on every case. *)
+Theorem C10_file_engine : forall (tt : list EngineSM.row) (structs protos msgs : list string) (m : smodel) (a : Engine.usertags),
+  tt_model tt structs protos msgs = Some m -> cs_file_wf tt structs protos msgs a = true ->
+  EngineSM.generate_file m Parse16.dict0 a cs_file = Some (cs_file_ref tt structs protos msgs a)
+  /\ nth_error cs_file16 45 = Some (TransBlock "    " "    " cs_tbody)
+  /\ ref_item16 (with_user a (elements_of (table_of tt) structs protos msgs)) (TransBlock "    " "    " cs_tbody)
+     = flat_map (cs_class_text (table_of tt)) (cs_classes (table_of tt)).
+Proof. exact cs_file_engine. Qed.
+Print Assumptions C10_file_engine.
 
 (* the reading alone: every table (rows well formed or not) *)
 Theorem C10_handler_reads : forall (t : table) s e, cs_reads_all "X" (cs_handler_text t s e) (cs_handler t s e) = true.
